@@ -125,7 +125,7 @@ def run_case(case):
     labels = ['frontend:' + fe, 'framing:' + framing, 'single:%s' % single, 'ignore:%s' % ignore, 'bcast:%s' % bcast]
     reqs = case['requests']
     frames = [refframe.build(framing, r['uid'], bytes.fromhex(r['pdu']), r['tid'], 0) for r in reqs]
-    if framing == 'binary' and any(any(b in (0x7B, 0x7D) for b in fr[1:-1]) for fr in frames):
+    if framing == 'binary' and any(refframe.binary_fragile(fr) for fr in frames):
         return Outcome([], labels + ['excluded-binary-delimiter'], False)
     script = []
     i = 0
